@@ -1,6 +1,7 @@
 (* C11: funding settles on schedule, exactly.  Statements only. *)
 From MP.Model Require Import Prelude U128 SInt Feed Vamm VammOps Token World Engine Runtime.
-From MP.Proofs Require Import Tactics SIntFacts EngineGuards EngineArith MoreFacts FundingTxFacts Scenario.
+From MP.Proofs Require Import Tactics SIntFacts EngineGuards EngineArith MoreFacts FundingTxFacts.
+From MP.Model Require Import Scenario.
 
 Theorem C11_too_early_fails : forall v e s o, now e < v_next_funding (vs v) -> exists er, settle_funding v e s o = Err er.
 Proof. exact settle_funding_too_early. Qed.
@@ -106,3 +107,24 @@ Definition c11_example : bool :=
   end.
 Example C11_nonvacuous : c11_example = true.
 Proof. vm_compute. reflexivity. Qed.
+
+(* KNOWN FINDING (reverse_skips_funding), as a refutation on the model: the clause "each position is charged
+   ... whenever its owner trades on it" is false for a reversing OpenPosition.  In the concrete scenario a
+   settlement leaves trader 21 owing 44560; the reversal that follows leaves the trader's wallet and the new
+   position's margin exactly what they are in the run without the settlement: the owed amount is never
+   charged.  The same history on the contracts is the replay of the known finding. *)
+Definition c11_reversal_outcome (settle : bool) : option (Z * Z * Z) :=
+  match scenario with
+  | Ok w0 =>
+      let w := run w0 ([OBlock 4000 1; OFeed 1 (PAppend 9000000 5030)] ++ (if settle then [OEngine 41 (EPayFunding 11) 0] else [])) in
+      let p := read_position (w_eng w) 11 21 in
+      match exec_op (-1) w (OEngine 21 (EOpenPosition 11 Sell 11000000 2000000 0) 0) with
+      | Ok w' => Some (funding_owed w 11 p, bal (w_tok w') 21, p_margin (read_position (w_eng w') 11 21))
+      | Err _ => None
+      end
+  | Err _ => None
+  end.
+Example C11_refuted_reversal_skips_funding :
+  c11_reversal_outcome true = Some (44560, 999993823183, 6058939) /\
+  c11_reversal_outcome false = Some (0, 999993823183, 6058939).
+Proof. split; vm_compute; reflexivity. Qed.
